@@ -5,7 +5,7 @@ From Coq.Strings Require Import Byte.
 From Coq Require String.
 Import String.StringSyntax.
 Import ListNotations.
-From OV Require Import Base.Bytes Base.Utf8 Base.Cases Base.Tree Model.Csv Model.Fixed Model.Delim
+From OV Require Import Base.Bytes Base.Utf8 Base.Cases Base.Tree Gen.CsvCfg Model.Csv Model.Fixed Model.Delim
   Proofs.DelimUtf8 Proofs.DelimCsv Proofs.DelimFixed Proofs.DelimReaders Proofs.DelimLine Proofs.DelimCsv2 Proofs.DelimJump Proofs.DelimValid Proofs.DelimFixed2 Proofs.DelimFixed1.
 Local Open Scope string_scope.
 Local Open Scope list_scope.
@@ -78,6 +78,34 @@ Theorem csv_roundtrip : forall comma t trailing,
   csv_read comma (csv_encode comma t trailing)
   = map (fun r => CRec (map (fun qf => crlf2lf (snd qf)) (r_fields r))) t.
 Proof. exact (fun comma t trailing V => csv_roundtrip_proof comma V t trailing). Qed.
+
+(* The model of encoding/csv transcribes the reader for ONE configuration (cfg_supported: Comma =
+   first rune of the declared delimiter, FieldsPerRecord < 0, no LazyQuotes, no TrimLeadingSpace,
+   no Comment; replace_double_quotes maps 0x22 to 0x27).  Gen/CsvCfg.v holds what the two
+   NewReader functions of /repo assign, extracted on every run: both readers use exactly that
+   configuration, so csv_next (what every csv theorem here talks about) is the transcription. *)
+Theorem csv_reader_configuration :
+  cfg_supported old_csv_cfg = true /\ cfg_supported csv2_cfg = true
+  /\ forall comma st, csv_next comma st = csv_next_strict comma st.
+Proof. exact (conj eq_refl (conj eq_refl csv_next_is_strict)). Qed.
+
+(* replace_double_quotes: every table written without quoting (cells may contain double quotes, but
+   - after the replacement - no delimiter, CR or LF) reads back with the quotes replaced *)
+Theorem csv_replace_dq_roundtrip : forall comma t trailing,
+  valid_delim comma = true ->
+  Forall (fun r => Forall (fun qf : bool * bytes => fst qf = false) (r_fields r)) t ->
+  Forall (wf_row (encode_rune comma)) (map rq_row t) ->
+  csv_read comma (replace_dq (csv_encode comma t trailing))
+  = map (fun r => CRec (map (fun qf => crlf2lf (snd qf)) (r_fields (rq_row r)))) t.
+Proof.
+  exact (fun comma t trailing V Hu Hw =>
+    eq_trans (csv_replace_dq_roundtrip_proof comma t trailing V Hu Hw) (map_map rq_row row_out t)).
+Qed.
+
+Example csv_replace_dq_nonvacuous :
+  let t := [mkRow [] [(false, hx "612262"); (false, hx "22")] false] in     (* a"b,"  *)
+  csv_read 44%N (replace_dq (csv_encode 44%N t [])) = [CRec [hx "612762"; hx "27"]].
+Proof. vm_compute. reflexivity. Qed.
 
 Theorem csv_value_exact : forall c, mem_byte CR c = false -> crlf2lf c = c.
 Proof. exact crlf2lf_id. Qed.
@@ -175,7 +203,7 @@ Proof. vm_compute. auto. Qed.
    number of further Reads requested.  [trim] is strings.TrimSpace (any function). *)
 Theorem csv_header_rejects : forall trim d input h st1 r st2,
   d_header d = Some h ->
-  jump_to (S h) (d_delim d) (h - 1) (o_c (old_init d input)) = Some (false, st1) ->
+  jump_to (S h) (d_delim d) (h - 1) (o_c (old_init d input)) = Some (JOk, st1) ->
   csv_next (d_delim d) st1 = (r, st2) ->
   r <> CFuel ->
   (forall hdr, r = CRec hdr -> header_matches trim d hdr = false) ->
@@ -187,7 +215,7 @@ Proof. exact header_rejects_general. Qed.
    is ever returned - in particular no record, however long the caller keeps reading *)
 Theorem csv_header_parse_error : forall trim d input h st1 st2,
   d_header d = Some h ->
-  jump_to (S h) (d_delim d) (h - 1) (o_c (old_init d input)) = Some (false, st1) ->
+  jump_to (S h) (d_delim d) (h - 1) (o_c (old_init d input)) = Some (JOk, st1) ->
   csv_next (d_delim d) st1 = (CParseErr, st2) ->
   forall k, run_reads ost (old_read trim d) (S k) (old_init d input) = [OFatal].
 Proof. exact header_parse_error. Qed.
@@ -203,9 +231,18 @@ Theorem csv_header_bare_quote_first_line : forall trim d f tailf rest,
   forall k, run_reads ost (old_read trim d) (S k) (old_init d ((f ++ tailf) ++ LF :: rest)) = [OFatal].
 Proof. exact (fun trim d f tailf rest V => header_bare_quote_first_line trim d V f tailf rest). Qed.
 
+(* a failure of reading the input (not a csv parse error) while rows are skipped - repair N10: the
+   first Read returns a fatal error at once, for every header_row_index / data_row_index (jumpTo
+   does not retry the failing read for each row still to skip), and nothing is returned after it.
+   In the in-memory model the one such error is encoding/csv's rejection of its delimiter. *)
+Theorem csv_input_failure_is_fatal_at_once : forall trim d input k,
+  valid_delim (d_delim d) = false ->
+  run_reads ost (old_read trim d) (S k) (old_init d input) = [OFatal].
+Proof. exact csv_input_failure_fatal_proof. Qed.
+
 Theorem csv_header_unreadable : forall trim d input h st1,
   d_header d = Some h ->
-  jump_to (S h) (d_delim d) (h - 1) (o_c (old_init d input)) = Some (true, st1) ->
+  jump_to (S h) (d_delim d) (h - 1) (o_c (old_init d input)) = Some (JEof, st1) ->
   forall k, run_reads ost (old_read trim d) (S k) (old_init d input) = [OFatal].
 Proof. exact header_unreadable. Qed.
 
@@ -336,6 +373,21 @@ Theorem fixed1_rows_read : forall re_match e tl inp ls rest k,
   f1_read re_match (S k) (e :: tl) (mkF1 inp 0)
   = (ONode (T ElementNode (e_name e) FNone (kids_spec re_match (undone (e_cols e)) ls)), mkF1 rest 0).
 Proof. exact fixed1_rows_read_proof. Qed.
+
+(* "first matching line wins" (columnsDone): a declared column over the lines of an envelope appears
+   at most once and holds the rune slice of the FIRST line its line_pattern matches; lines after it,
+   matching or not, do not change it.  kids_spec is the same fact for a whole column list. *)
+Theorem fixed1_first_matching_line_wins : forall re_match c ls,
+  kids_run re_match [(c, false)] ls =
+  match first_match re_match c ls with
+  | Some (_, l) => [mk1 c l]
+  | None => []
+  end.
+Proof. exact first_matching_line_wins_proof. Qed.
+
+Theorem fixed1_columns_by_first_match : forall re_match ls cols,
+  kids_run re_match cols ls = kids_spec re_match cols ls.
+Proof. exact kids_run_spec. Qed.
 
 (* by_header_footer: the envelope is the first one at or after the reader's envelope index whose
    header matches the line (fixed1_find_env), its lines run to the first line matching the footer
